@@ -9,7 +9,7 @@ from lib import *
 
 FRAGS = [b'data_', b'data_a', b'save_', b'save_a', b'loop_', b'stop_', b'global_', b'_n', b'a', b'1', b'?', b"'", b'"', b"'''", b';', b'\n', b'\r', b' ',
          b'[', b']', b'{', b'}', b':', b'#', b'\\', b'$', b'#\\#CIF_2.0\n', b'#\\#CIF_1.1\n', b'\xef\xbb\xbf', b'\xc3', b'\xe2\x82', b'\xed\xa0\x80',
-         b'\xef\xbf\xbe', b'\x00', b'\x7f', b'\xff', b'\n;', b'\xc3\xa9', b'\xf0\x9f\x98\x80']
+         b'\xef\xbf\xbe', b'\x00', b'\x7f', b'\xff', b'\n;', b'\xc3\xa9', b'\xf0\x9f\x98\x80', b'\xc2\x85']
 
 WHOLE = []
 for text in ['data_a\n_x 1\n', "data_a _x 'q\n", 'data_a _x [1 {\'k\':\n', 'data_a\n_x\n;txt\n;\n']:
@@ -23,14 +23,16 @@ WHOLE += [b'\xff\xfe' + 'data_a _x \ud800 y'.encode('utf-16-le', 'surrogatepass'
 def option_sets(tier):
     base = ['']
     one = ['p2=-1', 'p2=1', 'p2=20', 'depth=0', 'depth=-1', 'fold=-1', 'fold=1', 'prefix=-1', 'prefix=1', 'ws=0b eol=0c', 'force=1', 'h=1',
-           'force=1 enc=ISO-8859-1', 'force=1 enc=UTF-16LE', 'enc=ISO-8859-1', 'enc=nonsense-encoding invalidopts=1', 'p2=-1 fold=1 prefix=1', 'p2=20 depth=0 fold=-1 prefix=-1 ws=0b eol=0c h=1']
+           'force=1 enc=ISO-8859-1', 'force=1 enc=UTF-16LE', 'enc=ISO-8859-1', 'enc=nonsense-encoding invalidopts=1', 'p2=-1 fold=1 prefix=1', 'p2=20 depth=0 fold=-1 prefix=-1 ws=0b eol=0c h=1',
+           # extra whitespace / end-of-line characters beyond ASCII (NEL, NBSP-1, the top of the table, bytes that are negative as plain char)
+           'eol=85', 'ws=85', 'ws=9fa0ff80 eol=9e', 'force=1 enc=ISO-8859-1 eol=85 ws=a0']
     if tier == 'quick':
         return base + one
     full = []
     for p2, depth, fold, prefix, wseol, force, h in itertools.product(['p2=-1', '', 'p2=1', 'p2=20'], ['depth=0', '', 'depth=-1'], ['fold=-1', '', 'fold=1'],
                                                                     ['prefix=-1', '', 'prefix=1'], ['', 'ws=0b eol=0c'], ['', 'force=1'], ['', 'h=1']):
         full.append(' '.join(x for x in (p2, depth, fold, prefix, wseol, force, h) if x))
-    return full + one[12:16]
+    return full + one[12:16] + one[18:]
 
 
 def work(chunk, cfg):
